@@ -25,6 +25,10 @@ CHAIN_SCENARIOS = ["future_poll", "future_has_value", "future_await", "future_co
 # coroutine mutex protocol as a whole on the happens-before machine (MutexClock.lean): obligations over the regenerated atomic-site table
 MUTEX_TABLE_OBLIGATIONS = ["c03_mutex_orders_current", "c03_mutex_protocol_race_free", "c03_mutex_handoff_ordered"]
 MUTEX_SCENARIOS = ["mutex", "mutex_window"]
+# signal<T> as a whole on the happens-before machine (SignalClock.lean): obligations over the regenerated tables (Props/C03b.lean)
+SIGNAL_TABLE_OBLIGATIONS = ["c03_signal_orders_current", "c03_signal_protocol_race_free", "c03_signal_no_own_atomics",
+                            "c03_signal_subscribe_accesses", "c03_signal_walk_accesses"]
+SIGNAL_SCENARIOS = ["signal"]
 
 
 def failing_lock_programs():
@@ -116,18 +120,26 @@ class C03(Spec):
     design_ref = "DESIGN.md §5 C03"
     technique = "Lean 4 proof on a happens-before machine instantiated with memory orders / lock regions extracted from the source by a clang-AST translator"
     level_text = ("Lean 4 theorems: (1) release/acquire message passing with release sequences, fences and stale reads is race free for any number of threads and every schedule iff "
-                  "the publishing op releases and the observing op acquires (Clock.lean, mp_safe_iff); every lock-free publication protocol of cocls is listed with its two "
-                  "sites and `decide` proves, over the atomic-site table regenerated from /repo on every run, that the orders written in the source are sufficient; (2) lock "
-                  "discipline => race freedom (LockDisc.lean) and `decide` over the regenerated guarded-access table of queue/limited_queue/thread_pool/scheduler/publisher; "
-                  "(3) position facts about plain accesses to published nodes. Behaviour on x86 cannot reveal a missing release, so the tie is the translator; ThreadSanitizer "
-                  "scenario runs on the real headers are the search engine once an obligation breaks.")
+                  "the publishing op releases and the observing op acquires (Clock.lean, mp_safe_iff); (1b) every lock-free protocol of cocls AS A WHOLE - promise/future/awaiter chain "
+                  "(ChainClock), coroutine mutex (MutexClock), reusable_storage_mtsafe try-lock over any number of rounds (TryLockClock), the generator's _block ping-pong (PingPongClock) - "
+                  "is the property's micro-step model (the one C01/C02/C07/C08/C19 compare with the headers) instrumented with vector clocks and FastTrack metadata for EVERY plain access, "
+                  "proved race free for all configurations, schedules and stale reads under a sufficiency predicate on the memory orders, with `decide` witnesses that each clause is "
+                  "necessary, and `decide` proves over the atomic-site table regenerated from /repo on every run that the orders written in the source satisfy it; (2) lock "
+                  "discipline => race freedom (LockDisc.lean, LockProg.lean) and `decide` over the regenerated lock programs / guarded-access table of queue/limited_queue/thread_pool/"
+                  "scheduler/publisher; (3) position facts about plain accesses to published nodes, incl. the ones the whole-protocol models assume. Behaviour on x86 cannot reveal a "
+                  "missing release, so the tie is the translator; ThreadSanitizer scenario runs on the real headers are the search engine once an obligation breaks.")
     level_note = ("trusted: Lean kernel; the extractor (python over clang-14's JSON AST: atomic call sites and their memory_order arguments, lock_guard/unique_lock regions tracked "
-                  "branch-sensitively, member accesses by object type) and the hand-written protocol list in Props/C03.lean (which two operations form a publication). Memory "
+                  "branch-sensitively, member accesses by object type, private names canonicalised by an alpha-renaming guessed against a committed baseline - extract/names.py); the "
+                  "lookups that bind the orders of a whole-protocol model to source sites (chainOrdersOf, mutexOrdersOf, tryLockOrdersOf, genBlockOrdersOf: class/function/kind, `none` = "
+                  "obligation fails) and the older pairwise protocol list; that the micro-step models have the plain accesses of the code (position obligations over the extracted "
+                  "plain-access table cover walk / subscribe / set-before-resolve / build_queue / unlock / mtsafe; the rest is the hand-written model, tied by the C01/C02/C07/C08/C19 replays). Memory "
                   "model fragment: relaxed/acquire/release/acq_rel, seq_cst treated as acq_rel, release sequences through RMWs, acquire fences; not modelled: consume, release "
                   "fences, mixed-size, OOTA. std::shared_ptr / stop_token internals and implicit seq_cst conversions of atomics are not in the tables. Interleaving-level "
                   "conflicts are C02/C07's.")
     trusted_base = ["extract/astwalk.py + extract/extract.py (translator, trusted as a program)",
-                    "protocol list and guarded-class list (hand-written) in Props/C03.lean and extract/extract.py",
+                    "site lookups of the whole-protocol models, pairwise protocol list and guarded-class list (hand-written) in Props/C03.lean, Props/C03b.lean and extract/extract.py",
+                    "modelled assumptions of the clock models, stated in their files: a coroutine hand-over between threads (frame migration, generator body hop, pool hop) synchronises; "
+                    "a resumed coroutine continues in the resumer's clock",
                     "C++20 memory model fragment of lean/CoclsModel/Clock.lean (DESIGN §4.4)"]
     assumptions = ["seq_cst is treated as acq_rel (weaker, hence sound for race freedom)",
                    "atomic::notify_* only uses the address of the atomic object"]
@@ -142,7 +154,7 @@ class C03(Spec):
                 "c03_lock_programs_classes", "c03_set_constructs_before_state",
                 "c03_awaiter_no_touch_after_publish", "c03_sites_accounted", "c03_rmw_shapes", "c03_tracer_ref_before_publish", "c03_mtsafe_dealloc_no_write_after_release",
                 "c03_mtsafe_alloc_writes_after_acquire", "c03_start_in_sets_pool_before_handover", "c03_hint_loads_gate_nothing", "c03_guarded_data_does_not_escape",
-                "c03_trylock_orders_current", "c03_genblock_orders_current", "c03_elide_hint_orders_current", "c03_async_awaiter_orders_current", "c03_small_sites_accounted"] + CHAIN_TABLE_OBLIGATIONS + MUTEX_TABLE_OBLIGATIONS
+                "c03_trylock_orders_current", "c03_genblock_orders_current", "c03_elide_hint_orders_current", "c03_async_awaiter_orders_current", "c03_small_sites_accounted"] + CHAIN_TABLE_OBLIGATIONS + MUTEX_TABLE_OBLIGATIONS + SIGNAL_TABLE_OBLIGATIONS
 
     def prebuild(self):
         tsan_binary()
@@ -265,6 +277,9 @@ class C03(Spec):
             scenarios += ["future_await"]
         if "c03_build_queue_acquires_before_queue" in broken:
             scenarios += ["mutex_window", "mutex"]
+        if broken & set(SIGNAL_TABLE_OBLIGATIONS):
+            # the orders (or the shape) of the signal's chain protocol as a whole (SignalClock.lean) are no longer sufficient
+            scenarios += SIGNAL_SCENARIOS
         if broken & set(MUTEX_TABLE_OBLIGATIONS):
             # the orders of the coroutine mutex protocol as a whole (MutexClock.lean) are no longer sufficient
             scenarios += MUTEX_SCENARIOS
